@@ -61,21 +61,26 @@ Theorem decide_requested_chunk : forall o k p i kq l,
 Proof. exact decide_requested_chunk_lemma. Qed.
 Print Assumptions decide_requested_chunk.
 
-(** decide_total_and_requested, specification level: whenever the option table reflects the structured requests,
-    every successful decision meets the specification ("the requested layout where applicable").
-    PARTIAL: the lemma [build_entries_from options_init es = Some o -> options_consistent o = true ->
-    reflects o es (threshold o)] (the table built by hrepack_addcomp/hrepack_addchunk answers lookups with the last
-    request naming the object) is not proved; its consequence is checked on every generated case by the
-    correspondence run (the driver evaluates [meets] on the library's output and compares the library's layout with
-    [decide]), and the hypothesis is met by the concrete tables of the Examples below.  The clause "else the
-    input's layout" does not hold of the code as it stands and is not claimed: an object below the threshold that is
-    stored unchunked is written uncompressed even if the input was compressed, and an object named by -c only is
-    uncompressed (its table entry carries the default type NONE). *)
-Theorem decide_total_and_requested_partial : forall o es th k p i l,
-  reflects o es th -> (k = KSds \/ k = KGr) -> o_rank i = rank_of k i ->
-  decide o k p i = Some l -> meets es th k p i l = true.
-Proof. exact decide_meets_spec_lemma. Qed.
-Print Assumptions decide_total_and_requested_partial.
+(** The option table hrepack builds (hrepack_addcomp / hrepack_addchunk, options_add_comp / options_add_chunk with
+    in-place update, refusal of a second setting, appended new names, "*" handling) answers every lookup with the
+    last request that names the object or "*", for every list of requests it accepts. *)
+Theorem build_reflects : forall es o,
+  build_entries_from options_init es = Some o -> reflects o es (threshold o).
+Proof. exact build_reflects_lemma. Qed.
+Print Assumptions build_reflects.
+
+(** decide_total_and_requested, full: for the option table built from ANY accepted list of requests, every
+    successful layout decision of copy_sds / copy_gr meets the specification: the requested compression and the
+    requested chunking are the output's whenever they are applicable ([meets], RepackSpec.v).  Together with
+    [decide_total] (when the decision can fail).  The clause "else the input's layout" does not hold of the code as
+    it stands and is not part of [meets]: an object below the threshold that is stored unchunked is written
+    uncompressed even if the input was compressed, and an object named by -c only is uncompressed (its table entry
+    carries the default type NONE). *)
+Theorem decide_total_and_requested : forall es o k p i l,
+  build_entries_from options_init es = Some o -> (k = KSds \/ k = KGr) -> o_rank i = rank_of k i ->
+  decide o k p i = Some l -> meets es (threshold o) k p i l = true.
+Proof. exact decide_total_and_requested_lemma. Qed.
+Print Assumptions decide_total_and_requested.
 
 (** parse_print_options: every -t option the parser can accept within its fixed buffers -- any non-empty list of
     names free of ':' and ',' and shorter than H4_MAX_NC_NAME, with NONE, RLE, HUFF 1..9999 or GZIP 0..9 -- is
@@ -174,6 +179,10 @@ Proof.
   split; [repeat constructor; vm_compute; intuition discriminate|].
   vm_compute. reflexivity.
 Qed.
+
+Example entries_build : exists o, build_entries_from options_init ex_entries = Some o /\
+  decide o KSds [103; 49; 47; 65] ex_info = Some {| l_comp := 4; l_info := 6; l_chunk := Some [10; 10]; l_rec := false |}.
+Proof. eexists. split; vm_compute; reflexivity. Qed.
 
 (** [reflects] holds of the table built from the example entries (checked pointwise for the paths that occur and,
     for every other path, because no entry names it and no global request is set). *)
